@@ -112,6 +112,24 @@ func TestC12Mailbox(t *testing.T) {
 		m.close(c, "2")
 		m.wg.Wait()
 	}
+	// the websocket proxy is killed: its sockets are dropped without a closing
+	// handshake, so closing them reports an error - Close must carry on
+	// (close the other stream, fire Done, cancel) all the same
+	proxyKilled := func(s *lncrun.Session, x *lncExpect, m *mbCloser) {
+		s.Serve()
+		c, sc := x.connect(1)
+		if c == nil {
+			return
+		}
+		x.exchange(c, sc, 100)
+		s.KillFrontDoors()
+		time.Sleep(300 * time.Millisecond)
+		m.close(c, "1")
+		m.wg.Wait()
+		m.close(c, "2")
+		m.close(sc, "1")
+		m.wg.Wait()
+	}
 	scens := []scen{
 		{"client-first", lncrun.Options{PrePaired: true}, both("c", 500*time.Millisecond, false)},
 		{"server-first", lncrun.Options{PrePaired: true}, both("s", 500*time.Millisecond, false)},
@@ -121,6 +139,7 @@ func TestC12Mailbox(t *testing.T) {
 		{"ws-client-first-twice", lncrun.Options{PrePaired: true, Websocket: true}, both("c", 300*time.Millisecond, true)},
 		{"ws-server-first", lncrun.Options{Websocket: true}, both("s", 0, false)},
 		{"ws-relay-gone", lncrun.Options{PrePaired: true, Websocket: true}, relayGone},
+		{"ws-proxy-killed", lncrun.Options{PrePaired: true, Websocket: true}, proxyKilled},
 	}
 	f, err := os.Create(filepath.Join(dir, "c12mailbox.ndjson"))
 	if err != nil {
